@@ -458,6 +458,72 @@ def run(ctx):
             except _NoEval as e:
                 ctx.bad(R_seek, "SFileSetFilePointer|not-evaluable", sp.where, "offset composition not evaluable: %s" % e, "shape changed")
 
+    # handles of all kinds (archive, file, search) come from ONE counter: each function validates a handle only against its own
+    # table, which is sound only because an id is never issued twice across tables
+    R_ns = ctx.rule("C19.handle-ids-come-from-one-counter", "every function that inserts into a handle table takes the id from the same integer-counter static", floor=3)
+    counters_by_fn = {}
+    for p_, x_ in fl.items():
+        f_ = x_.fn
+        inserts = [t for bb, t in mirg.iter_calls(f_) if re.search(r"HashMap<.*>::insert$|hash::map::HashMap::insert$|HashMap::<.*>::insert$", mirg.callee(t) or "")]
+        if not inserts:
+            continue
+        cs = set()
+        for site in x_.lock_sites:
+            sname = site[1]
+            sty = ""
+            for a_ in st.items.get("statics", []) if isinstance(st.items.get("statics"), list) else []:
+                if a_.get("path", "").endswith(sname):
+                    sty = a_.get("ty", "")
+            if re.search(r"Mutex<(u|i)(8|16|32|64|size)>", sty) or re.search(r"NEXT|COUNTER|SEQ", sname):
+                cs.add(sname)
+        if cs:
+            counters_by_fn[p_] = cs
+    allc = sorted({c_ for cs in counters_by_fn.values() for c_ in cs})
+    if not counters_by_fn:
+        ctx.bad(R_ns, "handles|no-counter", "-", "no handle-issuing function recognised", "shape changed")
+    elif len(allc) == 1:
+        for p_ in sorted(counters_by_fn):
+            ctx.ok(R_ns, {"fn": p_.split("::")[-1], "counter": allc[0].split("::")[-1]})
+    else:
+        from collections import Counter as _Counter
+        maj = _Counter(c_ for cs in counters_by_fn.values() for c_ in cs).most_common(1)[0][0]
+        for p_, cs in sorted(counters_by_fn.items()):
+            odd = sorted(cs - {maj})
+            if odd:
+                ctx.bad(R_ns, "%s|own-counter|%s" % (p_.split("::")[-1], odd[0].split("::")[-1]), x_.fn.file if False else fl[p_].fn.where, "%s issues ids from `%s`; the other handle-issuing functions use `%s`" % (p_.split("::")[-1], odd[0].split("::")[-1], maj.split("::")[-1]),
+                        "ids of different handle kinds collide: a search handle passed to a file or archive function is silently run on an unrelated live object instead of failing with ERROR_INVALID_HANDLE")
+            else:
+                ctx.ok(R_ns, {"fn": p_.split("::")[-1], "counter": maj.split("::")[-1]})
+
+    # a panic inside an extern "C" function aborts the caller's process.  Slicing a str / String by a byte range panics when a bound is
+    # not a character boundary, so inside the FFI crate a range index into text is allowed only with bounds that are boundaries by
+    # construction (the result of find / rfind / char_indices, or the string's len()); truncation to a byte budget goes through bytes
+    R_sl = ctx.rule("C19.no-text-slicing-at-computed-byte-offsets", "no `str`/`String` range index in storm-ffi whose bound passed through min / max / arithmetic with a constant budget (as_bytes-based copies are the accepted form)", floor=1)
+    for f_ in st.fn_list:
+        if not f_.mir or not f_.mir.get("blocks") or "::tests::" in f_.path:
+            continue
+        du_ = None
+        for bb, t in mirg.iter_calls(f_):
+            cn = mirg.callee(t) or ""
+            if re.search(r"core::str::<impl str>::as_bytes$|String::as_bytes$|CStr::to_bytes", cn):
+                ctx.ok(R_sl, {"fn": f_.path.split("::")[-1], "line": t["ln"], "form": "bytes"}) if len(ctx.samples) < 250 else (ctx.rules[R_sl].__setitem__("obligations", ctx.rules[R_sl]["obligations"] + 1), ctx.rules[R_sl].__setitem__("discharged", ctx.rules[R_sl]["discharged"] + 1))
+                continue
+            if not re.search(r"<(alloc::string::String|str) as core::ops::index::Index(Mut)?<.*>>::index(_mut)?$|str::traits::<impl core::ops::index::Index", cn) or len(t["a"]) < 2:
+                continue
+            ty0 = st.ty(f_.mir["locals"][mirg.op_local(t["a"][1])][0]) if mirg.op_local(t["a"][1]) is not None else ""
+            if "Range" not in (ty0 or ""):
+                continue
+            du_ = du_ or mirg.DefUse(f_)
+            _l, calls_, ints_ = du_.slice_back(mirg.op_local(t["a"][1]), depth=10)
+            names = [(ncallee(c_) or "") for c_ in calls_]
+            risky = [n_ for n_ in names if re.search(r"::(min|max|clamp|saturating_sub|saturating_add|checked_sub|checked_add|wrapping_sub)$", n_)]
+            anchored = any(re.search(r"::(find|rfind|char_indices|match_indices|rmatch_indices|floor_char_boundary|ceil_char_boundary|is_char_boundary)$", n_) for n_ in names)
+            if risky and not anchored:
+                ctx.bad(R_sl, "%s|text-sliced-at-budget" % f_.path.split("::")[-1], "%s:%d" % (f_.file, t["ln"]), "a String/str is sliced by a range whose bound went through `%s`" % risky[0].split("::")[-1],
+                        "for a name longer than the budget whose byte at the budget is inside a multi-byte character the slice panics inside an extern \"C\" function: the process aborts (SIGABRT)")
+            else:
+                ctx.ok(R_sl, {"fn": f_.path.split("::")[-1], "line": t["ln"], "form": "range index with boundary-anchored bound"})
+
     # memory reached through a table's guard is touched only while that guard is held: a raw pointer (or reference) taken from an
     # entry and used by a copy after the guard was dropped races with SFileCloseFile / SFileCloseArchive freeing the entry
     R_live = ctx.rule("C19.table-memory-used-under-its-lock", "every raw copy / read whose source or destination derives from a handle-table guard executes while that guard is live", floor=3)
